@@ -254,6 +254,11 @@ def run_case(u, case, keys, owned=("C11", "C13", "C06"), mirror_of=None):
                 ga = trees.dense(ua.generator(i, keys), order=list(ua.basis))
                 if np.linalg.norm(ga - gens[i]) > 1e-12 * (np.linalg.norm(ga) + 1):
                     raise RuntimeError("mirror construction broke the state (harness bug)")
+        if case.get("c0"):
+            # the first generator is already complex (as after a real-time step): a phase on the root and complex storage everywhere
+            objs[1] = objs[1].to_complex()
+            objs[1] = objs[1].scale(np.exp(0.37j))
+            gens[1] = trees.dense(objs[1], order=list(u.basis))
     except Exception as e:
         V("C11:init-raises", f"creating a random TTNS raised {type(e).__name__}: {e}")
         return out
